@@ -5,7 +5,7 @@ instance.  Written from the documentation, not from serializers/mixins.py: it lo
 ``metadata`` / ``Meta`` declarations.  Supported subset: Element / Attribute / Text fields, Optional, lists and tuples,
 tokens, nillable (field and class), nested models with namespace inheritance, field namespaces ("" = unqualified),
 wrapper, sequence groups, enums, fixed (init=False) fields, xsi:type for subclasses, ignore_default_attributes.
-Compound fields, wildcards, unions, QName values and formats are outside this reference (monitor only).
+Compound fields with class choices are read too; wildcards, unions, primitive compound choices, QName values and formats are outside this reference (monitor only).
 """
 
 from __future__ import annotations
@@ -89,6 +89,18 @@ def element(obj, name=None, ns=None, parent_ns=None, declared=None, nil=False, i
             v = getattr(obj, f.name)
             if v is not None and _text(v) != "":
                 kids.append(_text(v))
+    # compound fields (class choices only): each value is written under the name of the choice declaring EXACTLY its class
+    for f in flds:
+        if f.metadata.get("type") == "Elements":
+            v = getattr(obj, f.name)
+            for item in (v if isinstance(v, (list, tuple)) else ([] if v is None else [v])):
+                if not dataclasses.is_dataclass(item):
+                    raise NotImplementedError("primitive compound choice")
+                choice = [c for c in f.metadata["choices"] if c.get("type") is type(item)]
+                if not choice:
+                    raise NotImplementedError("no exact choice")
+                cns = choice[0]["namespace"] if "namespace" in choice[0] else cls_ns
+                kids.append(element(item, choice[0]["name"], cns or None, cls_ns, None, False, ida))
     # elements, honouring sequence groups
     els = [f for f in flds if f.metadata.get("type") == "Element"]
     i = 0
